@@ -330,12 +330,92 @@ func c18Reentrant(maxN int) explore.Exec {
 	}
 }
 
+// c18FaultedIter: an ascending / descending iteration over a re-opened file with
+// one failing file call at every index: Next must end (false, Err set), the
+// producer must exit and the pinned version must be released.
+func c18FaultedIter() explore.Exec {
+	return func(c *explore.Chooser) *explore.Outcome {
+		var w *harness.World
+		desc := ""
+		res := harness.RunExec(c, false, 0, func() {
+			descending := harness.Choose(2, harness.ClassOp) == 1
+			useIter := harness.Choose(2, harness.ClassOp) == 1
+			w = harness.NewWorld(harness.Monitors{}, 0, c18Keys, false)
+			c18Build(w, 4, 1)
+			if len(w.Viols) > 0 {
+				return
+			}
+			desc = fmt.Sprintf("descending=%v iterator=%v, one file fault", descending, useIter)
+			w.Hist = append(w.Hist, desc)
+			col := w.Colls["x"]
+			w.File.FaultMode = 1
+			harness.BeginOp("faulted visit")
+			n := 0
+			var err error
+			target := []byte{}
+			if descending {
+				target = []byte{0xff}
+			}
+			if useIter {
+				var it gkvlite.ItemIterator
+				if descending {
+					it = col.IterateDescend(target, true)
+				} else {
+					it = col.IterateAscend(target, true)
+				}
+				for it.Next() {
+					n++
+				}
+				err = it.Err()
+				it.Close()
+			} else if descending {
+				err = col.VisitItemsDescend(target, true, func(*gkvlite.Item) bool { n++; return true })
+			} else {
+				err = col.VisitItemsAscend(target, true, func(*gkvlite.Item) bool { n++; return true })
+			}
+			w.File.FaultMode = 0
+			if w.File.FaultsHit > 0 && err == nil {
+				w.Fail("iterator", "fault-swallowed", "the visit reported no error although a file call failed (%d items delivered) (%s)", n, desc)
+			}
+			if w.File.FaultsHit == 0 && (err != nil || n != 4) {
+				w.Fail("iterator", "short", "fault-free visit delivered %d of 4 items, err %v (%s)", n, err, desc)
+			}
+			harness.Quiesce()
+			if harness.Instrumented {
+				if l := harness.LiveLibThreads(); l != 0 {
+					w.Fail("iterator", "producer-leak", "%d producer goroutine(s) alive after a failed iteration (%s)", l, desc)
+				}
+				if ri, ok := harness.Root(col); ok && (ri.Refs != 1 || ri.Chained) {
+					w.Fail("iterator", "pin-not-released", "after a visit that ended with an error the version is still pinned: refs=%d chained=%v (%s)", ri.Refs, ri.Chained, desc)
+				}
+			}
+			w.SetItem("x", bs("c"), 9, bs("vc"))
+			w.ObserveAll()
+		})
+		out := &explore.Outcome{}
+		if w != nil {
+			for _, v := range w.Viols {
+				out.Viols = append(out.Viols, explore.Viol{Oracle: v.Oracle, Sig: v.Sig, Msg: v.Msg})
+			}
+			out.Sample = desc
+			out.Transitions = w.Trans + 1
+			out.ObsHash = harness.HashString(fmt.Sprint(c.Choices()))
+			out.StateHash = harness.HashString(desc)
+			out.NonTrivial = c.HasClass(explore.ClassFault)
+		}
+		out.Viols = append(out.Viols, verdictViol(res, []string{desc})...)
+		return out
+	}
+}
+
 func c18Profiles(tier string) []Profile {
 	nS, nR, bound := 2, 3, 2
 	if tier == "thorough" {
 		nS, nR, bound = 3, 4, 3
 	}
 	return []Profile{
+		{Name: "faulted-iteration", Exec: c18FaultedIter(), Budget: map[int]int{explore.ClassFault: 1}, ShardLevel: 3,
+			Rule: "a 4-item re-opened collection visited completely (ascending/descending, visit/iterator) with one failing file call at every index: the failure is reported, the producer goroutine exits, the pinned version is released, a following mutation and the full read battery behave"},
 		{Name: "scripts-mutate", Exec: c18ScriptExec(nS, true, true), Budget: map[int]int{explore.ClassSched: 1}, ShardLevel: 3, FreeRun: true,
 			Rule: fmt.Sprintf("as scripts, sizes 0..%d, with one mutation (overwrite of a key) by the consumer while the producer is parked inside its visit, every interleaving with at most 1 preemption: the iterator keeps delivering the version it pinned, and when it ends that version and the chain to its successors are released (reference count of the current version back to 1, not chained); AllocStats is read while the abandoned producer winds down (lock order)", nS)},
 		{Name: "scripts", Exec: c18ScriptExec(nS, true, false), Budget: map[int]int{explore.ClassSched: bound}, ShardLevel: 3, FreeRun: true,
